@@ -54,31 +54,31 @@ Proof.
   rewrite <- (H' j Hj). f_equal. lia.
 Qed.
 
-(* ---- what is proved: safe loop (fastloop = false), every placement ---- *)
-Theorem valid_decodes_safe_loop :
-  forall (pl : placement) (B hist D : list Z) (srcm dictm : mem) (cap : Z) (m0 : mem),
+(* ---- proof of the full statement: fast loop on or off, every placement ---- *)
+Theorem valid_decodes :
+  forall (fastloop : bool) (pl : placement) (B hist D : list Z) (srcm dictm : mem) (cap : Z) (m0 : mem),
     strict_valid (lastn (Z.to_nat 65536) hist) B = Some D -> bytes B -> src_at srcm 0 B ->
     hist_placed pl hist dictm m0 -> Z.of_nat (length D) <= cap ->
-    decodes_to (decompress_usingDict false false srcm (Z.of_nat (length B)) 0 cap pl dictm (Z.of_nat (length hist)) m0) D.
+    decodes_to (decompress_usingDict fastloop false srcm (Z.of_nat (length B)) 0 cap pl dictm (Z.of_nat (length hist)) m0) D.
 Proof.
-  intros pl B hist D srcm dictm cap m0 Hv Hb Hs Hh Hcap.
+  intros fastloop pl B hist D srcm dictm cap m0 Hv Hb Hs Hh Hcap.
   unfold decompress_usingDict, decodes_to.
   pose proof (lastn_length (Z.to_nat 65536) hist) as Hl.
   destruct (Z.of_nat (length hist) =? 0) eqn:E0.
-  - apply (dec_generic_valid_safe_loop NoDict srcm empty 0 0 0 ltac:(lia) ltac:(lia) B (lastn (Z.to_nat 65536) hist) D cap m0); try assumption.
+  - apply (dec_generic_valid NoDict srcm empty 0 0 0 ltac:(lia) ltac:(lia) fastloop B (lastn (Z.to_nat 65536) hist) D cap m0); try assumption.
     + intros j Hj. rewrite rev_length in Hj. lia.
     + unfold hroom. cbn [is_extdict]. lia.
   - destruct pl.
     + unfold hist_placed in Hh. pose proof (out_at_lastn _ _ (Z.to_nat 65536) _ Hh) as Hh'.
       destruct (Z.of_nat (length hist) >=? 65536 - 1) eqn:E1.
-      * apply (dec_generic_valid_safe_loop WithPrefix64k srcm empty 0 (-65536) (- Z.of_nat (length hist)) ltac:(lia) ltac:(lia) B (lastn (Z.to_nat 65536) hist) D cap m0); try assumption.
+      * apply (dec_generic_valid WithPrefix64k srcm empty 0 (-65536) (- Z.of_nat (length hist)) ltac:(lia) ltac:(lia) fastloop B (lastn (Z.to_nat 65536) hist) D cap m0); try assumption.
         -- apply view_prefix; [exact Hh' | rewrite rev_length; lia].
         -- unfold hroom. cbn [is_extdict]. lia.
-      * apply (dec_generic_valid_safe_loop NoDict srcm empty 0 (- Z.of_nat (length hist)) (- Z.of_nat (length hist)) ltac:(lia) ltac:(lia) B (lastn (Z.to_nat 65536) hist) D cap m0); try assumption.
+      * apply (dec_generic_valid NoDict srcm empty 0 (- Z.of_nat (length hist)) (- Z.of_nat (length hist)) ltac:(lia) ltac:(lia) fastloop B (lastn (Z.to_nat 65536) hist) D cap m0); try assumption.
         -- apply view_prefix; [exact Hh' | rewrite rev_length; lia].
         -- unfold hroom. cbn [is_extdict]. lia.
     + unfold hist_placed in Hh.
-      apply (dec_generic_valid_safe_loop UsingExtDict srcm dictm (Z.of_nat (length hist)) 0 0 ltac:(lia) ltac:(lia) B (lastn (Z.to_nat 65536) hist) D cap m0); try assumption.
+      apply (dec_generic_valid UsingExtDict srcm dictm (Z.of_nat (length hist)) 0 0 ltac:(lia) ltac:(lia) fastloop B (lastn (Z.to_nat 65536) hist) D cap m0); try assumption.
       * apply view_ext. exact Hh.
       * unfold hroom. cbn [is_extdict]. lia.
 Qed.
@@ -88,18 +88,21 @@ Theorem valid_decodes_safe_loop_prefix :
     strict_valid (lastn (Z.to_nat 65536) hist) B = Some D -> bytes B -> src_at srcm 0 B ->
     hist_placed PPrefix hist dictm m0 -> Z.of_nat (length D) <= cap ->
     decodes_to (decompress_usingDict false false srcm (Z.of_nat (length B)) 0 cap PPrefix dictm (Z.of_nat (length hist)) m0) D.
-Proof. intros. apply valid_decodes_safe_loop; assumption. Qed.
+Proof. intros. apply valid_decodes; assumption. Qed.
 
-Theorem valid_decodes_safe_loop_nodict :
-  forall (B D : list Z) (srcm : mem) (cap : Z) (m0 : mem),
+Theorem valid_decodes_nodict :
+  forall (fastloop : bool) (B D : list Z) (srcm : mem) (cap : Z) (m0 : mem),
     strict_valid [] B = Some D -> bytes B -> src_at srcm 0 B -> Z.of_nat (length D) <= cap ->
-    decodes_to (decompress_safe false srcm (Z.of_nat (length B)) cap m0) D.
+    decodes_to (decompress_safe fastloop srcm (Z.of_nat (length B)) cap m0) D.
 Proof.
-  intros B D srcm cap m0 Hv Hb Hs Hcap. unfold decompress_safe, decodes_to.
-  apply (dec_generic_valid_safe_loop NoDict srcm empty 0 0 0 ltac:(lia) ltac:(lia) B [] D cap m0); try assumption.
+  intros fastloop B D srcm cap m0 Hv Hb Hs Hcap. unfold decompress_safe, decodes_to.
+  apply (dec_generic_valid NoDict srcm empty 0 0 0 ltac:(lia) ltac:(lia) fastloop B [] D cap m0); try assumption.
   - intros j Hj. cbn in Hj. lia.
   - cbn. lia.
 Qed.
+
+Theorem valid_decodes_full : C05_valid_decodes_full_statement.
+Proof. exact valid_decodes. Qed.
 
 (* ================= C16: partial decoding ================= *)
 (* return value min(t,|D|) and that prefix of D at the start of the destination *)
